@@ -29,7 +29,7 @@ m = {
     "hooks": {
         "guard": "verif",
         "enable": "no hook lives in /repo: ./check generates instrumented copies of the current sources (yield points, virtual clock, os shim, SMTPError observer) and adds harness packages (all '//go:build verif') through `go test -c -tags verif -overlay=<generated>.json -modfile=<copy of go.mod + verifkit>` at check time",
-        "baseline_off_cmd": "cd /repo && go test -mod=mod -vet=off -count=1 -timeout 25m ./...",
+        "baseline_off_cmd": "cd /repo && go test -mod=mod -json -vet=off -count=1 -timeout 25m ./...",
         "source_commits": [],
         "add_only": True,
     },
